@@ -154,7 +154,8 @@ class VCfg:
 def gen_cfg(rng, color_only=None):
     co = rng.random() < 0.25 if color_only is None else color_only
     d = dict(colorOnly=int(co))
-    d["keepMarkers"] = int(rng.random() < 0.3)
+    # --color-only enables the built-in feature that keeps the markers (a bool flag cannot be unset)
+    d["keepMarkers"] = 1 if co else int(rng.random() < 0.3)
     d["tab"] = rng.choice([0, 1, 2, 4, 8, 8])
     d["bufSize"] = rng.choice([0, 1, 2, 4, 32, 32])
     d["mergeConflicts"] = 1
@@ -453,13 +454,17 @@ def canon_model_rows(rows, cfg):
     out = []
     for k, t, _ in rows:
         pk = MODEL2PAL[k]
+        # an `omit` style that color-only mode nevertheless writes carries no colour
+        if (k == "file" and cfg.d["fileOmit"]) or (k == "commit" and cfg.d["commitOmit"]):
+            pk = "raw"
         if pk == "deco":
             out.append(("deco", ""))
             continue
         if k == "mcBar":
             out.append(("raw", (t * 80)[:80] if t else ""))
             continue
-        if strip_ansi(t.encode()) == b"" and pk in ("raw", "zero", "minus", "plus", "commit", "file", "hunkHeader"):
+        t = strip_ansi(t.encode("utf-8", "surrogateescape")).decode("utf-8", "replace")
+        if t == "" and pk in ("raw", "zero", "minus", "plus", "commit", "file", "hunkHeader"):
             # painting an empty text produces no SGR at all: the row is an empty line
             pk = "blank"
         t = canon_text(pk, t)
